@@ -86,7 +86,9 @@ Section ConstParam.
     destruct (k_no blk <=? k_no (st_best (es_st (en_est en)))); [reflexivity|].
     destruct (gather _ _ _ _ _) as [[root nb]|]; [|reflexivity].
     destruct (negb (need_reorganization _ _)); [reflexivity|].
-    rewrite mstatus_update_embed, mfold_embed. cbn [fst snd ms_es].
+    rewrite mstatus_update_embed. cbn [ms_es].
+    replace (param sto (k_id root)) with n0 by reflexivity.
+    rewrite mfold_embed. cbn [fst snd ms_es].
     unfold param, sto. cbn [snd]. reflexivity.
   Qed.
 
@@ -234,22 +236,23 @@ End CrCurrent.
 
 (** * The weaker hypothesis is not sufficient *)
 (** "BPCOUNT unchanged between the reference block and the best block" -- even "BPCOUNT constant
-    on the whole main chain" -- does not make the producer set a function of the main chain: the
-    in-memory BPCOUNT is not reloaded at reorg.rollback (only system.InitSystemParams at the END of
-    chain.reorg), so the new branch is rolled forward with the abandoned branch's value and a
-    snapshot taken at an election boundary inside the rollforward is cut at it.
-    Main chain 1..406 with BPCOUNT 3 everywhere; node A first received an abandoned branch
-    1291..1305 (forking at 290) on which BPCOUNT was 5; node B never did.  Block ids: main chain
-    id = height, abandoned branch id = 1000 + height. *)
+    on the whole main chain" -- does not make the producer set a function of the main chain.
+    reorg.rollback calls Status.Update(fork point) BEFORE the parameters are reloaded (fix F41
+    reloads them right after), so UpdateCluster(fork point) still runs with the abandoned
+    branch's in-memory BPCOUNT; when the snapshot is not cached (the node was restarted since the
+    last boundary) the ranking is re-read and cut at that value, and it stays installed until the
+    next boundary.  Main chain 1..356 with BPCOUNT 3 everywhere; node A restarted at 350, then
+    received an abandoned branch 1351..1355 on which BPCOUNT was 5; node B never saw it.
+    Block ids: main chain id = height, abandoned branch id = 1000 + height. *)
 Definition wk_sto (id : Z) : list Z * Z := ([0; 1; 2; 3; 4; 5], if 1000 <? id then 5 else 3).
 Fixpoint wk_seg (k : nat) (i off : Z) : list event :=
   match k with
   | O => []
-  | S k' => EDeliver (mkBlk (off + i) (if i =? 291 then 290 else off + i - 1) i (i mod 3) 1) :: wk_seg k' (i + 1) off
+  | S k' => EDeliver (mkBlk (off + i) (if i =? 351 then 350 else off + i - 1) i (i mod 3) 1) :: wk_seg k' (i + 1) off
   end.
-Definition wk_common : list event := wk_seg 290 1 0.
-Definition wk_old : list event := wk_seg 15 291 1000.
-Definition wk_new : list event := wk_seg 116 291 0.
+Definition wk_common : list event := wk_seg 350 1 0 ++ [ERestart].
+Definition wk_old : list event := wk_seg 5 351 1000.
+Definition wk_new : list event := wk_seg 6 351 0.
 Definition wk_evs_a : list event := wk_common ++ wk_old ++ wk_new.
 Definition wk_evs_b : list event := wk_common ++ wk_new.
 Local Notation wk_a := (mrun wk_sto [0; 1; 2] (minit_node wk_sto [0; 1; 2] 0) wk_evs_a).
@@ -273,9 +276,11 @@ Theorem cluster_function_of_chain_main_const_refuted :
     m_cluster (mrun sto gen (minit_node sto gen self) evs1) <> m_cluster (mrun sto gen (minit_node sto gen self) evs2).
 Proof.
   exists wk_sto. exists [0; 1; 2]. exists 0. exists wk_evs_a. exists wk_evs_b.
-  split. { unfold wk_evs_a, wk_common, wk_old, wk_new. apply Forall_app; split; [apply wk_seg_ok; lia|].
+  assert (C : Forall ev_ok wk_common).
+  { unfold wk_common. apply Forall_app; split; [apply wk_seg_ok; lia|]. constructor; [exact I|constructor]. }
+  split. { unfold wk_evs_a, wk_old, wk_new. apply Forall_app; split; [exact C|].
            apply Forall_app; split; apply wk_seg_ok; lia. }
-  split. { unfold wk_evs_b, wk_common, wk_new. apply Forall_app; split; apply wk_seg_ok; lia. }
+  split. { unfold wk_evs_b, wk_new. apply Forall_app; split; [exact C|apply wk_seg_ok; lia]. }
   split. exact wk_same_main. split. exact wk_main_const.
   destruct wk_clusters as [A B]. intro H.
   pose proof (eq_trans (eq_sym A) (eq_trans H B)) as X. discriminate X.
